@@ -854,6 +854,24 @@ def false_cycle_reports(idx, A, err="RecursiveModelStructure"):
         seen.add(f)
         node = getattr(f, "node_orig", None) or f.node
         rec = [c for c in ast.walk(node) if isinstance(c, ast.Call) and ((isinstance(c.func, ast.Name) and c.func.id == f.name) or (isinstance(c.func, ast.Attribute) and c.func.attr == f.name and isinstance(c.func.value, ast.Name) and c.func.value.id in ("self", "cls")))]
+        # iterative form: a work list (`pending.pop()` / `pending.extend(successors)`) with a `visited` collection that is only added to:
+        # a node reached a second time - along another chain - is taken for a loop
+        for lp in [n for n in ast.walk(node) if isinstance(n, ast.While)]:
+            pops = [c for c in ast.walk(lp) if isinstance(c, ast.Call) and isinstance(c.func, ast.Attribute) and c.func.attr in ("pop", "popleft") and isinstance(c.func.value, ast.Name)]
+            pushes = [c for c in ast.walk(lp) if isinstance(c, ast.Call) and isinstance(c.func, ast.Attribute) and c.func.attr in ("extend", "append", "appendleft", "update") and isinstance(c.func.value, ast.Name) and any(p_.func.value.id == c.func.value.id for p_ in pops)]
+            if not (pops and pushes):
+                continue
+            for iff in [n for n in ast.walk(lp) if isinstance(n, ast.If)]:
+                t = iff.test
+                if not (isinstance(t, ast.Compare) and len(t.ops) == 1 and isinstance(t.ops[0], ast.In) and isinstance(t.comparators[0], ast.Name)):
+                    continue
+                if not any(isinstance(x, ast.Raise) and x.exc is not None and err in K.src(x.exc) for st in iff.body for x in ast.walk(st)):
+                    continue
+                coll = t.comparators[0].id
+                adds = [c for c in ast.walk(lp) if isinstance(c, ast.Call) and isinstance(c.func, ast.Attribute) and c.func.attr in ("add", "append") and isinstance(c.func.value, ast.Name) and c.func.value.id == coll]
+                removes = [c for c in ast.walk(lp) if isinstance(c, ast.Call) and isinstance(c.func, ast.Attribute) and c.func.attr in ("remove", "discard", "pop", "clear") and isinstance(c.func.value, ast.Name) and c.func.value.id == coll]
+                if adds and not removes and coll not in {p_.func.value.id for p_ in pops}:
+                    out.append((f, iff.lineno, "%s walks the references with a work list and raises the recursive-model error when `%s` is already in `%s`, a collection it only ever adds to: it holds every result reached so far, not the chain being followed, so a result reached along two chains (a diamond, or the same result named twice) is reported as a loop and a valid model is refused before anything runs" % (f.qualname, K.src(t.left), coll)))
         if not rec:
             continue
         params = [a.arg for a in node.args.args]
